@@ -10,6 +10,7 @@ import (
 	"encoding/json"
 	"fmt"
 	"io"
+	"math"
 	"os"
 	"os/exec"
 	"path/filepath"
@@ -42,6 +43,8 @@ func GetApparmorLogs(file io.Reader, profile string) []string {
 	}
 
 	scanner := bufio.NewScanner(file)
+	// Do not stop on lines longer than the default 64 KiB token size
+	scanner.Buffer(make([]byte, 0, bufio.MaxScanTokenSize), math.MaxInt)
 	for scanner.Scan() {
 		line := scanner.Text()
 		if isAppArmorLog.MatchString(line) {
